@@ -116,9 +116,29 @@ func (f *fnTrans) instr(ins ssa.Instruction) {
 		f.nilCheckAddr(ins.Addr, ins.Pos())
 		f.store(a, f.val(ins.Val), ins.Pos())
 		if fa, ok := ins.Addr.(*ssa.FieldAddr); ok {
+			if st, key, local := f.w.localStruct(deref(fa.X.Type())); st != nil && local {
+				for _, fi := range f.w.Spec.FieldInvs {
+					if fi[0] != key || fi[1] != st.Field(fa.Field).Name() {
+						continue
+					}
+					if ex, err := ParseSpecExpr(fi[2]); err == nil {
+						env := &Env{w: f.w, names: map[string]TV{"v": {f.val(ins.Val), st.Field(fa.Field).Type()}}, st: f.cur, old: f.cur, lets: map[string]SExpr{}}
+						if b, err := env.EvalBool(ex); err == nil {
+							o := f.oblige("fieldinv", "declared invariant of "+key+"."+fi[1]+" holds of the stored value: "+fi[2], ins.Pos(), strings.Split(fi[3], ","), f.here(), b)
+							o.Name = fmt.Sprintf("%s/fieldinv#%d", f.name, f.nOb["fieldinv"]-1)
+						} else {
+							f.unsupported("%s: fieldinv: %v", fi[4], err)
+						}
+					}
+				}
+			}
 			// stores into a struct with declared invariants must re-establish them
-			if inv := f.typeInv(f.val(fa.X), fa.X.Type()); inv.S != "true" {
-				o := f.oblige("typeinv", "type invariant holds after store to "+fa.String(), ins.Pos(), f.allProps, f.here(), inv)
+			if inv := f.typeInv(f.val(fa.X), fa.X.Type()); inv.S != "true" && !f.isConstructing(fa.X) {
+				// objects allocated by this function are under construction until they leave it
+				// (checked at return and where they are passed to a callee)
+				base := f.val(fa.X)
+				notFresh := Le(App("root", SInt, base), Sym("G$allocTop@0", SInt))
+				o := f.oblige("typeinv", "type invariant holds after store to "+fa.String()+" (of an object that existed at entry)", ins.Pos(), f.allProps, f.here(), Implies(notFresh, inv))
 				o.Name = fmt.Sprintf("%s/typeinv#%d", f.name, f.nOb["typeinv"]-1)
 			}
 		}
@@ -300,6 +320,16 @@ func (f *fnTrans) zeroStructElems(r Term, elem types.Type) {
 func (f *fnTrans) unop(ins *ssa.UnOp) {
 	switch ins.Op {
 	case token.MUL:
+		if al, ok := ins.X.(*ssa.Alloc); ok {
+			if pv, ok := writeOnceParamCell(al); ok {
+				// a parameter spilled to a cell because closures read it: never assigned again,
+				// so every load yields the parameter whatever happens to the cell heap
+				if t, seen := f.vals[pv]; seen {
+					f.vals[ins] = t
+					return
+				}
+			}
+		}
 		a := f.addrOf(ins.X)
 		v := f.load(a, ins.Pos())
 		v = f.define("ld_"+ins.Name(), v)
@@ -322,6 +352,55 @@ func (f *fnTrans) unop(ins *ssa.UnOp) {
 		f.unsupported("unary %s", ins.Op)
 		f.vals[ins] = f.fresh("un", f.w.SortOf(ins.Type()))
 	}
+}
+
+// writeOnceParamCell: al is a local cell initialised from a parameter and never stored again,
+// neither in the function nor in any closure that captures it.
+func writeOnceParamCell(al *ssa.Alloc) (*ssa.Parameter, bool) {
+	var init *ssa.Parameter
+	stores := 0
+	var scan func(v ssa.Value, depth int) bool
+	scan = func(v ssa.Value, depth int) bool {
+		if depth > 4 || v.Referrers() == nil {
+			return false
+		}
+		for _, r := range *v.Referrers() {
+			switch x := r.(type) {
+			case *ssa.Store:
+				if x.Addr == v {
+					stores++
+					if p, ok := x.Val.(*ssa.Parameter); ok && depth == 0 {
+						init = p
+					} else {
+						return false
+					}
+				} else {
+					return false // the address itself escapes into memory
+				}
+			case *ssa.UnOp:
+				if x.Op != token.MUL {
+					return false
+				}
+			case *ssa.MakeClosure:
+				fn := x.Fn.(*ssa.Function)
+				for i, b := range x.Bindings {
+					if b == v {
+						if !scan(fn.FreeVars[i], depth+1) {
+							return false
+						}
+					}
+				}
+			case *ssa.DebugRef:
+			default:
+				return false
+			}
+		}
+		return true
+	}
+	if !scan(al, 0) || stores != 1 || init == nil {
+		return nil, false
+	}
+	return init, true
 }
 
 func (f *fnTrans) binop(ins *ssa.BinOp) {
@@ -761,8 +840,11 @@ func (f *fnTrans) ret(ins *ssa.Return) {
 		}
 		return TV{}, false
 	}
+	// ghost assignments may name locals (they are code, not interface)
+	genv := *env
+	genv.lookup = look
 	for _, g := range f.c.GhostSets {
-		f.ghostSet(env, g[0], g[1])
+		f.ghostSet(&genv, g[0], g[1])
 	}
 	env.st = f.cur
 	if len(f.c.Lemmas) > 0 {
@@ -807,6 +889,7 @@ func (f *fnTrans) ret(ins *ssa.Return) {
 		o.Name = fmt.Sprintf("%s/%s@ret%d", f.name, nm, ord)
 		f.factOb(f.here(), t)
 	}
+	f.constructedAtReturn(ins, ord)
 	if f.c.HasMod {
 		f.frameObligations(ins, ord)
 	} else if len(f.c.Frames) > 0 {
@@ -1092,6 +1175,36 @@ func (f *fnTrans) frameObligations(ins *ssa.Return, ord int) {
 }
 
 // ghostSet executes a contract-level ghost assignment  name(x) = e.
+// constructedAtReturn: objects this function allocated and returns, and parameters it was
+// constructing, owe their type invariant now (unless the function reports an error).
+func (f *fnTrans) constructedAtReturn(ins *ssa.Return, ord int) {
+	res := f.fn.Signature.Results()
+	guard := f.here()
+	if k := res.Len(); k > 0 && isErrorType(res.At(k-1).Type()) && len(ins.Results) == k {
+		guard = And(guard, Eq(f.val(ins.Results[k-1]), IntLit(0)))
+	}
+	fresh := func(t Term) Term { return Gt(App("root", SInt, t), Sym("G$allocTop@0", SInt)) }
+	for i, r := range ins.Results {
+		if _, ok := r.Type().Underlying().(*types.Pointer); !ok {
+			continue
+		}
+		t := f.val(r)
+		if inv := f.typeInv(t, r.Type()); inv.S != "true" {
+			o := f.oblige("typeinv", fmt.Sprintf("type invariant of the returned object (result %d) if it was built here", i), ins.Pos(), f.allProps, guard, Implies(fresh(t), inv))
+			o.Name = fmt.Sprintf("%s/typeinv:result%d@ret%d", f.name, i, ord)
+		}
+	}
+	for _, p := range f.fn.Params {
+		if !f.isConstructing(p) {
+			continue
+		}
+		if inv := f.typeInv(f.val(p), p.Type()); inv.S != "true" {
+			o := f.oblige("typeinv", "type invariant of the object under construction ("+p.Name()+") at return", ins.Pos(), f.allProps, guard, inv)
+			o.Name = fmt.Sprintf("%s/typeinv:%s@ret%d", f.name, p.Name(), ord)
+		}
+	}
+}
+
 func (f *fnTrans) ghostSet(env *Env, loc, src string) {
 	if _, ok := f.w.ghostVar[strings.TrimSpace(loc)]; ok {
 		vx, err := ParseSpecExpr(src)
@@ -1127,6 +1240,11 @@ func (f *fnTrans) ghostSet(env *Env, loc, src string) {
 	env.st = f.cur
 	r, err1 := env.EvalAny(rx)
 	v, err2 := env.EvalAny(vx)
+	if err1 == nil && err2 != nil && strings.Contains(err2.Error(), "unknown identifier") {
+		// the value names a local that is not in scope at this return: the ghost cell is left arbitrary here
+		_, vs := f.w.heapSort["X$_$"+name].ArrayParts()
+		v, err2 = TV{T: f.fresh("ghost_"+name, vs)}, nil
+	}
 	if err1 != nil || err2 != nil {
 		f.unsupported("ghostset %s: %v %v", loc, err1, err2)
 		return
